@@ -5,3 +5,7 @@ import CheetahModel.Properties.C19
 #print axioms C19.lost_particles_are_not_sources
 #print axioms C19.deposit_linear_in_charge
 #print axioms C19.positions_unchanged
+#print axioms C19.deposit_order_independent
+#print axioms C19.kick_order_independent
+#print axioms C19.weights_partition_of_unity
+#print axioms C19.deposit_conserves_charge
